@@ -867,6 +867,10 @@ impl Actor for NodeServer {
     }
 }
 
+#[cfg(slawlor_ractor_verif)]
+#[path = "/verif/hooks/cluster_node.rs"]
+pub mod verif_probe;
+
 #[cfg(test)]
 mod tests {
     use super::*;
